@@ -18,7 +18,13 @@ def ident(data, **kw):
     return data
 
 
+def make_input_plan(T, variant, **kw):
+    return disc_plan(T, variant, **kw)
+
+
 def setup(T, NODE, CTX, variant, context=False, repl=False):
+    if variant == "disc":
+        return disc_setup(T, NODE, CTX, variant)
     S = S_()
     S.T, S.node, S.ctx, S.variant, S.context = T, NODE, CTX, variant, context
     S.repl = repl
@@ -156,6 +162,8 @@ def repl_main(S, env):
 
 
 def main(S, env):
+    if S.variant == "disc":
+        return disc_main(S, env)
     if S.repl:
         return repl_main(S, env)
     v = S.node.make(env)
@@ -211,6 +219,81 @@ def main(S, env):
     return True
 
 
+# ------------------------------------------------------------------ dispatch through a Config discriminator
+def disc_plan(T, variant, **kw):
+    from vf import symval
+
+    ctx = symval.Ctx()
+    node = DiscInput(ctx)
+    return ctx, node
+
+
+class DiscInput:
+    def __init__(self, ctx):
+        self.which = ctx.sel(2)   # Circle | Sq
+        self.entry = ctx.sel(4)   # Base.from_dict | holder List[Base] | codec(Base) | Variant.from_dict
+        self.k = ctx.new("i", "int")
+        self.r = ctx.new("i", "int")
+
+    def make(self, env):
+        from vf.hlib import pick
+
+        return pick(env[self.which], 2), pick(env[self.entry], 4), env[self.k], env[self.r]
+
+
+def disc_setup(T, NODE, CTX, variant, **kw):
+    """T is the root of a hierarchy with a Config field discriminator; no union speculation is involved, so the
+    __pre_deserialize__ trace is exact here: only the class that is instantiated runs its hooks, each once"""
+    S = S_()
+    S.T, S.node, S.ctx, S.variant, S.context, S.repl = T, NODE, CTX, "disc", False, False
+    import typing
+    from mashumaro import DataClassDictMixin
+
+    S.variants = [c for c in T.__subclasses__()]
+    S.holder = dataclasses.make_dataclass("DiscHolder", [("items", typing.List[T])], bases=(DataClassDictMixin,))
+    S.codec = BasicDecoder(T).decode
+    S.enc_codec = BasicEncoder(T).encode
+    # compile everything on concrete data before tracing
+    for V in S.variants:
+        d = V().to_dict()
+        T.from_dict(d); S.holder.from_dict({"items": [d]}); S.codec(d); V.from_dict(d)
+    return S
+
+
+def disc_main(S, env):
+    which, entry, k, r = S.node.make(env)
+    V = S.variants[which]
+    v = V(k=k, r=r)
+    del LOG[:]
+    st, d = call(v.to_dict)
+    if st == "exc":
+        return fail("C19/encode-raised:%s" % type(d).__name__, value=v, exc=d)
+    got = [(h, c) for (h, c, i, x) in LOG]
+    want = [("pre_ser", V.__name__), ("post_ser", V.__name__)]
+    if got != want:
+        return fail(classify(got, want, "ser"), value=v, got=got, want=want)
+    del LOG[:]
+    if entry == 0:
+        st, res = call(S.T.from_dict, d)
+    elif entry == 1:
+        st, res = call(S.holder.from_dict, {"items": [d]})
+        if st == "ok":
+            res = res.items[0]
+    elif entry == 2:
+        st, res = call(S.codec, d)
+    else:
+        st, res = call(V.from_dict, d)
+    if st == "exc":
+        return fail("C19/decode-raised:%s" % type(res).__name__, input=d, exc=res, entry=entry)
+    if type(res) is not V or res != v:
+        return fail("C19/dispatch-wrong-result", input=d, got=res, entry=entry)
+    got = [(h, c) for (h, c, i, x) in LOG]
+    want = [("pre_de", V.__name__), ("post_de", V.__name__)]
+    if got != want:
+        return fail(classify(got, want, "de-through-discriminator"), input=d, got=got, want=want, entry=entry)
+    return True
+
+
 def has_hook_name(S, clsname, hook):
     return True
 
@@ -228,4 +311,7 @@ def classify(got, want, what):
 
 
 def twin(S, env):
+    if S.variant == "disc":
+        which, entry, k, r = S.node.make(env)
+        return not (which == 1 and entry == 0 and main(S, env))
     return not (region(S.ctx, env) and main(S, env))
